@@ -100,6 +100,18 @@ M = [
   "            self._executor.running_processes.kill_all_and_refuse_more()", "            pass"),
  ('C20', 'p03-parallel-interrupt-no-join', 'rebench/executor.py',
   "            self._executor.running_processes.kill_all_and_refuse_more()\n            for thread in self._worker_threads:\n                thread.join()\n            raise", "            raise"),
+ ('C20', 'd01-restore-leaves-no-turbo', 'rebench/denoise.py',
+  "    no_turbo = _set_no_turbo(False)", "    no_turbo = _set_no_turbo(True)"),
+ ('C20', 'd02-restore-paranoid-2', 'rebench/denoise.py',
+  'perf_file.write("3\\n")', 'perf_file.write("2\\n")'),
+ ('C20', 'd03-restore-governor-performance', 'rebench/denoise.py',
+  "    governor = _set_scaling_governor(SCALING_GOVERNOR_POWERSAVE, num_cores)", "    governor = _set_scaling_governor(SCALING_GOVERNOR_PERFORMANCE, num_cores)"),
+ ('C20', 'd04-restore-never-resets-shield', 'rebench/denoise.py',
+  "    shielding = _reset_shielding() if use_shielding else False", "    shielding = False"),
+ ('C20', 'd05-minimize-always-lowers-paranoid', 'rebench/denoise.py',
+  "        if for_profiling:\n            with open(\n                \"/proc/sys/kernel/perf_event_paranoid\"", "        if True:\n            with open(\n                \"/proc/sys/kernel/perf_event_paranoid\""),
+ ('C20', 'd06-restore-skips-sample-rate', 'rebench/denoise.py',
+  '            sample_file.write("50000\\n")', '            pass'),
  ('C20', 'n14-num-cores-minus-one', 'rebench/executor.py',
   'cmdline += "--num-cores " + str(num_cores) + " "', 'cmdline += "--num-cores " + str(num_cores - 1) + " "'),
 ]
